@@ -559,12 +559,12 @@ impl Formatter<'_> {
             }
             // Calculate max name length to align single-line bindings
             match item {
-                Item::Binding(binding) if !words_are_multiline(&binding.words) => {
+                Item::Binding(binding) if !binding_is_multiline(binding) => {
                     if max_name_len == 0 {
                         max_name_len = items[i..]
                             .iter()
                             .take_while(|item| match item {
-                                Item::Binding(binding) => !words_are_multiline(&binding.words),
+                                Item::Binding(binding) => !binding_is_multiline(binding),
                                 _ => false,
                             })
                             .map(|item| match item {
@@ -1849,6 +1849,17 @@ fn with_break_before_close(word: &Sp<Word>) -> Option<Sp<Word>> {
     }
     let mut word = word.clone();
     add_break(&mut word.value).then_some(word)
+}
+
+/// Whether a binding is printed on more than one line
+///
+/// The lines that the `;` unsplit marker joins are counted after they are joined.
+fn binding_is_multiline(binding: &Binding) -> bool {
+    if !words_are_multiline(&binding.words) {
+        return false;
+    }
+    let lines = flip_unsplit_lines(split_words(binding.words.clone()));
+    lines.len() > 1 || lines.iter().any(|line| words_are_multiline(line))
 }
 
 fn words_are_multiline(words: &[Sp<Word>]) -> bool {
